@@ -1,6 +1,8 @@
 package checker
 
 import (
+	"sort"
+
 	"github.com/jsightapi/jsight-schema-core/bytes"
 	"github.com/jsightapi/jsight-schema-core/errs"
 	"github.com/jsightapi/jsight-schema-core/json"
@@ -34,8 +36,16 @@ func CheckRootSchema(rootSchema *ischema.ISchema) {
 		c.checkNode(rootSchema.RootNode(), rootSchema.TypesList())
 	}
 
-	for name, typ := range rootSchema.TypesList() {
-		c.checkType(name, typ, rootSchema.TypesList())
+	// Check the types in name order: the first failing type is the one reported,
+	// which must not depend on the map iteration order.
+	types := rootSchema.TypesList()
+	names := make([]string, 0, len(types))
+	for name := range types {
+		names = append(names, name)
+	}
+	sort.Strings(names)
+	for _, name := range names {
+		c.checkType(name, types[name], types)
 	}
 }
 
